@@ -730,6 +730,12 @@ def _prune_ifs(fn):
             if isinstance(s, ast.If) and s.orelse and all(isinstance(x, ast.Pass) for x in s.orelse):
                 s.orelse = []
                 changed[0] = True
+            if isinstance(s, ast.If) and s.orelse and all(isinstance(x, ast.Pass) for x in s.body):
+                # if c: pass / else: S   ->   if not c: S
+                s.test = ast.copy_location(_neg(s.test), s.test)
+                s.body, s.orelse = s.orelse, []
+                ast.fix_missing_locations(s)
+                changed[0] = True
             out.append(s)
         return out or [ast.Pass()]
     fn.body = block(fn.body)
@@ -1614,7 +1620,8 @@ def _coalesce_copies(fn):
         if len(asg.targets) != 1 or not isinstance(asg.targets[0], ast.Name) or not isinstance(asg.value, ast.Name):
             continue
         x, t = asg.targets[0].id, asg.value.id
-        if x == t or not info.single(x) or t in info.params or info.counts.get(t, 0) < 1:
+        x_is_param = x in info.params and info.counts.get(x, 0) == 1
+        if x == t or not (info.single(x) or x_is_param) or t in info.params or info.counts.get(t, 0) < 1:
             continue
         at = info.order.get(id(asg))
         if at is None or info.loops.get(id(asg), True):
@@ -1643,11 +1650,39 @@ def _coalesce_copies(fn):
                 ok = False
             if isinstance(n, ast.arg) and n.arg in (t, x) and n.arg not in info.params:
                 ok = False
-        for n in ast.walk(fn):
-            if isinstance(n, ast.Name) and n.id == x and n is not asg.targets[0]:
-                st = info.owner.get(id(n))
-                if info.order.get(st, -1) <= at:
-                    ok = False
+        if ok and x_is_param:
+            # x = f(x) spelled through a temporary:  t = x | t = g(x) (one binding per path) ; x = t.     Reads of the OLD x are allowed only where they still see
+            # the old value after the renaming: before the first binding of t, in the value of a binding of t, or in the test of an `if` that encloses bindings of
+            # t and precedes them
+            stmts_by_id = {id(z): z for z in ast.walk(fn) if isinstance(z, ast.stmt)}
+            tb = [info.owner.get(id(n)) for n in ast.walk(fn) if isinstance(n, ast.Name) and n.id == t and isinstance(n.ctx, ast.Store)]
+            first = min(info.order[b] for b in tb)
+            if any(info.loops.get(b, True) for b in tb):
+                ok = False
+            for n in ast.walk(fn):
+                if not ok:
+                    break
+                if isinstance(n, ast.Name) and n.id == x and n is not asg.targets[0]:
+                    st = info.owner.get(id(n))
+                    o = info.order.get(st)
+                    if o is None:
+                        ok = False
+                    elif o < first or o > at:
+                        continue
+                    elif st in tb and isinstance(stmts_by_id.get(st), ast.Assign) and any(y is n for y in ast.walk(stmts_by_id[st].value)):
+                        continue
+                    elif isinstance(stmts_by_id.get(st), ast.If) and any(y is n for y in ast.walk(stmts_by_id[st].test)) \
+                            and all(info.order[b] > o for b in tb if any(z is stmts_by_id.get(b) for z in ast.walk(stmts_by_id[st]))) \
+                            and not any(info.order[b] < o and info.order[b] >= first for b in tb):
+                        continue
+                    else:
+                        ok = False
+        elif ok:
+            for n in ast.walk(fn):
+                if isinstance(n, ast.Name) and n.id == x and n is not asg.targets[0]:
+                    st = info.owner.get(id(n))
+                    if info.order.get(st, -1) <= at:
+                        ok = False
         if not ok:
             continue
         for n in ast.walk(fn):
